@@ -5,6 +5,7 @@ import (
 	"context"
 	"encoding/json"
 	"fmt"
+	"net"
 	"net/url"
 	"os"
 	"os/exec"
@@ -518,31 +519,41 @@ func TestC07(t *testing.T) {
 	})
 }
 
-// TestC07Port443 covers the "unless that is 443" clause: one shard binds
-// 127.0.0.1:443 (skipped and counted if that is not possible).
-func TestC07Port443(t *testing.T) {
+// TestC07Ports covers the "plus the listen port unless that is 443" clause for
+// ports around the default: 443 itself, ports whose digits end in, start with
+// or contain 443, and a few others.  Every shard uses a loopback address of
+// its own (127.<20+pid%200>.<shard>.1), so fixed ports do not collide; a port
+// that cannot be bound is skipped and counted.
+func TestC07Ports(t *testing.T) {
 	cc := coll("C07")
-	if ev.Replaying() || ev.ShardIndex() != 0 {
+	if ev.Replaying() {
 		t.Skip()
 	}
-	c := C07Case{Listen: "127.0.0.1:443", Reqs: []C07Req{{HTTP10: true, SNI: "sni.example"}, {HTTP10: true, SNI: "other.test", Header: ""}, {Host: "h.example", SNI: "sni.example"}}}
-	s, err := Start(Cfg{Listen: c.Listen})
-	if err != nil {
-		cc.Skipped("cannot-bind-port-443")
-		t.Skip("cannot bind 443: " + err.Error())
-	}
-	s.Stop()
-	k, w, cl := runC07(t, c)
-	canon, _ := json.Marshal(c)
-	cc.Case(string(canon), true, "listen-port-443")
-	for kk, v := range cl {
-		cc.Class(kk, v)
-	}
-	if k == "HARNESS" {
-		cc.Inconclusive(w)
-		t.Skip(w)
-	}
-	if k != "" {
-		t.Fatal(cc.Violation("TestC07", k, w, c, nil))
+	ports := []string{"443", "8443", "4443", "10443", "1443", "44300", "4430", "4433", "65443", "80", "8080", "3443"}
+	ip := fmt.Sprintf("127.%d.%d.1", 20+os.Getpid()%200, ev.ShardIndex()%250)
+	for i, port := range ports {
+		if i%ev.Shards() != ev.ShardIndex() {
+			continue
+		}
+		c := C07Case{Listen: net.JoinHostPort(ip, port), Reqs: []C07Req{{HTTP10: true, SNI: "sni.example"}, {HTTP10: true, SNI: "other.test"}, {Host: "h.example", SNI: "sni.example"}, {Host: "h.example:" + port}, {HTTP10: true, SNI: "sni.example", Header: "c2.example:8443"}}}
+		s, err := Start(Cfg{Listen: c.Listen})
+		if err != nil {
+			cc.Skipped("cannot-bind-port-" + port)
+			continue
+		}
+		s.Stop()
+		k, w, cl := runC07(t, c)
+		canon, _ := json.Marshal(c)
+		cc.Case(string(canon), true, "listen-port-"+port, "listen-port-fixed")
+		for kk, v := range cl {
+			cc.Class(kk, v)
+		}
+		if k == "HARNESS" {
+			cc.Inconclusive(w)
+			continue
+		}
+		if k != "" {
+			t.Fatal(cc.Violation("TestC07", k, w, c, nil))
+		}
 	}
 }
